@@ -170,6 +170,10 @@ def run(ctx):
     CalModel(I, terms, lmonths)
     table(ctx, 'PETE-SCENARIO', 'SixtyCycleMonth::get_days', range(12), smdays, smdays_orc, 'a sexagenary month lists exactly the days from its Jie day to the day before the next Jie', lambda k: u'%s月' % G.BRANCHES[(2 + k) % 12], fn_site(p, 'SixtyCycleMonth::get_days'))
 
+    # the one place where a REAL lunar month's length is readable from a literal table alone: the fitted new-moon segments (shared with C03)
+    from rules import c03 as _c03
+    _c03.fit_rule(ctx)
+
     ctx.assumptions.append('civil date <-> day number replaced by the calendar oracle (C01); lunar months and term days are scenario inputs (C02/C03, C05/C06)')
     ctx.not_decided.append('real lunar years / months as correct lists (their lengths are numeric: C03); day-of-year agreement is decided in C01')
     return ('container listings evaluated from the syntax tree: civil nesting as a closed system, month -> existing dates (incl. October 1582), and the lunar / sexagenary '
